@@ -40,7 +40,7 @@ STATIC_CENSUS = {
     ("components.o", "hwloc_component_finalize_cbs"): "model LRegistry", ("components.o", "hwloc_component_finalize_cb_count"): "model LRegistry",
     ("components.o", "hwloc_static_components"): "constant table",
     ("pci-common.o", "reported"): "PCI discovery error path only", ("topology-pci.o", "hwloc_pciaccess_mutex"): "a mutex",
-    ("topology-synthetic.o", "warned"): "model SSynthWarned (written every time the warning condition holds)",
+    ("topology-synthetic.o", "warned"): "model SSynthWarned (first use under HWLOC_SYNTHETIC_VERBOSE)",
     ("traversal.o", "names"): "constant table",
 }
 CENSUS_OUT_OF_SCOPE_OBJS = {"topology-linux.o", "topology-x86.o"}   # native discovery backends: load of the running machine, not modelled
@@ -296,7 +296,7 @@ def run_case(ctx, run, name, case, replaying=False):
         if c in predicted:
             if c.startswith("static:"):
                 fn = c.split(":", 1)[1]
-                run.violation(("always-writes-static:" if fn == "hwloc__export_synthetic_memory_children" else "first-use-static:") + fn,
+                run.violation("first-use-static:" + fn,
                               "ThreadSanitizer: data race on the function-local static of %s when two threads call it concurrently (%s)" % (fn, kind),
                               replay + "\ntsan:\n" + err_t.decode(errors="replace")[:6000])
                 ctx.confirmed.add(c)
